@@ -45,6 +45,35 @@ fn gen(rng: &mut Rng, _idx: u64, _tier: Tier) -> Case {
     }
     gen::add_neutral_options(rng, &mut args, true, true);
     let kinds = gen::COMMON_KINDS;
+    if rng.chance(0.03) {
+        // the wall clock is set back while the feed is down: some aircraft were last heard long before the
+        // drop (expired by the time the feed is back), others right before it (their last contact then lies
+        // in the future); the new session brings enough frames of a newcomer for a sweep
+        let n_old = rng.range(1, 4) as usize;
+        let n_new = rng.range(1, 4) as usize;
+        let many = gen::addresses(rng, n_old + n_new + 1);
+        let mut fleet: Vec<gen::Ac> = many.iter().map(|&a| gen::aircraft(rng, a)).collect();
+        let s = 1_000_000i64;
+        let mut first: Vec<(i64, Vec<u8>, String)> = vec![];
+        for i in 0..n_old { let k = *rng.pick(&[Kind::Df11, Kind::Ident, Kind::AirPos, Kind::Df4]); let f = gen::frame(rng, &mut fleet[i], k, true); first.push((rng.range(0, 200_000), gen::line_of(rng, &f, false), "old".into())); }
+        for i in 0..n_new { let k = *rng.pick(&[Kind::Df11, Kind::Ident, Kind::AirPos, Kind::Df4]); let f = gen::frame(rng, &mut fleet[n_old + i], k, true); first.push((if i == 0 { (d + rng.range(20, 40)) * s } else { rng.range(0, 200_000) }, gen::line_of(rng, &f, false), "recent".into())); }
+        let mut ops = gen::ops_of(rng, first, Chunking::Line);
+        ops.push(if rng.chance(0.5) { Op::Eof { dt_us: 0 } } else { Op::Err { dt_us: 0, kind: "ConnectionReset".into() } });
+        let mut conns = vec![Conn::Accept { ops }];
+        let refusals = rng.range(2, 3);
+        for i in 0..refusals {
+            let back = if i + 1 == refusals { -(rng.range(5 * refusals + 2, 5 * refusals + 18) * s) } else { 0 };
+            conns.push(Conn::Refuse { kind: "ConnectionRefused".into(), dt_us: back });
+        }
+        let newcomer = n_old + n_new;
+        let mut second: Vec<(i64, Vec<u8>, String)> = vec![];
+        for _ in 0..rng.range(12, 26) { let k = *rng.pick(&[Kind::Df11, Kind::AirPos, Kind::Df4, Kind::Vel12]); let f = gen::frame(rng, &mut fleet[newcomer], k, true); second.push((rng.range(0, 100_000), gen::line_of(rng, &f, false), "newcomer".into())); }
+        conns.push(Conn::Accept { ops: gen::ops_of(rng, second, Chunking::Line) });
+        let mut script = Script::file(args, vec![]);
+        script.tcp = true;
+        script.conns = conns;
+        return Case { property: "C18".into(), mode: "clock-back-during-outage".into(), script, args_b: None, log_level_b: None, meta: serde_json::Value::Null };
+    }
     let mut conns: Vec<Conn> = vec![];
     let chunk = |rng: &mut Rng| *rng.pick(&[Chunking::Line, Chunking::Line, Chunking::Pieces, Chunking::Multi]);
     // leading refusals
@@ -109,11 +138,11 @@ fn gen(rng: &mut Rng, _idx: u64, _tier: Tier) -> Case {
         for _ in 0..rng.range(15, 70) { conns.push(Conn::Refuse { kind: rng.pick(&["ConnectionRefused", "TimedOut", "HostUnreachable"]).to_string(), dt_us: 0 }); }
     }
     // the wall clock may be set back while the feed is down (between two refused attempts)
-    if rng.chance(0.08) {
+    if rng.chance(0.12) {
         let refused: Vec<usize> = conns.iter().enumerate().filter(|(i, c)| *i > 0 && matches!(c, Conn::Refuse { .. }) && matches!(conns[*i - 1], Conn::Refuse { .. })).map(|(i, _)| i).collect();
         if !refused.is_empty() {
             let at = *rng.pick(&refused);
-            let back = if rng.chance(0.3) { rng.range(1, 999_999) } else { rng.range(1_000_000, 40_000_000) };
+            let back = match rng.below(10) { 0..=2 => rng.range(1, 999_999), 3..=6 => rng.range(1_000_000, 7_000_000), _ => rng.range(7_000_000, 40_000_000) };
             if let Conn::Refuse { dt_us, .. } = &mut conns[at] { *dt_us = -back; }
         }
     }
